@@ -240,6 +240,72 @@ def gen_word(cid, engine, word):
     return b.c
 
 
+def add_module_b(b, order):
+    """second module: imports of every exported section head of the first module (and of an external),
+    refs and address expressions to them with displacements, in sections of their own"""
+    ls = b.c["lines"]
+    exported = [l[1] for l in ls if l[0] == "export" and find_def(ls, l[1]) is not None
+                and ls[find_def(ls, l[1])][0] in DATAK]
+    if not exported:
+        return False
+    b.add("module", order)
+    imps = [b.add("import", nm) for nm in exported]
+    if rng.chance(1, 3):
+        imps.append(b.add("import", b.name("ext")))
+    n = 1 + rng.below(6)
+    for _ in range(n):
+        r = rng.below(10)
+        t = rng.choice(imps)
+        if r < 6:
+            b.add("ref", b.name() if rng.chance(1, 3) else "-", t, rand_disp())
+        elif r < 8:
+            af = b.add("afunc", b.name("af"), t, rand_disp() % (1 << 31))
+            b.add("expr", b.name() if rng.chance(1, 2) else "-", af)
+        elif r < 9:
+            b.add("data", "-", "u8", 1 + rng.below(3), rand_bytes(3)[:2 * 3])
+        else:
+            b.add("func", b.name("fn"))
+    return True
+
+
+def gen_cross(cid, engine, head_kind, nfollow, order, export_first):
+    """module A: a named section head of the given kind with `nfollow` anonymous followers, exported;
+    module B: refs / address exprs to the import"""
+    b = Builder(cid, engine)
+    b.add("data", "lead", "u8", 3, "112233")
+    if head_kind == "ref":
+        b.add("import", "ext0")
+    if head_kind == "expr":
+        b.add("efunc", "ef0", "u32", 0xcafef00d)
+    if export_first:
+        b.add("export", "hd")
+    if head_kind == "data":
+        b.add("data", "hd", "i16", 3, "010203040506")
+    elif head_kind == "bss":
+        b.add("bss", "hd", 5)
+    elif head_kind == "ref":
+        b.add("ref", "hd", b.lines_of(("import",))[0], 4)
+    else:
+        b.add("expr", "hd", b.lines_of(("efunc",))[0])
+    for j in range(nfollow):
+        if j % 3 == 0:
+            b.add("data", "-", "i32", 1, "a0b0c0d0")
+        elif j % 3 == 1:
+            b.add("bss", "-", 3)
+        else:
+            b.add("ref", "-", 0, 1)
+    if not export_first:
+        b.add("export", "hd")
+    b.add("module", order)
+    imp = b.add("import", "hd")
+    b.add("ref", "r0", imp, 0)
+    b.add("ref", "-", imp, 6)
+    af = b.add("afunc", "af0", imp, 2)
+    b.add("expr", "-", af)
+    b.add("ref", "-", imp, -1)
+    return b.c
+
+
 def words(alphabet, maxlen):
     out = [""]
     res = []
@@ -295,6 +361,13 @@ def directed_cases():
                             lines.append(["ref", "-", dpos, 8 if len(lines) % 2 else -2])
                             lines.append(["data", "-", "i8", 1, "77"])
                     cs.append({"id": f"decl-{k}", "engine": eng, "lines": lines})
+                    k += 1
+    k = 0
+    for hk in ("data", "bss", "ref", "expr"):
+        for nf in (0, 1, 2, 3):
+            for order in ("a-first", "b-first"):
+                for xf in (False, True):
+                    cs.append(gen_cross(f"cross-{k}", ENGINES[k % len(ENGINES)], hk, nf, order, xf))
                     k += 1
     for eng in ENGINES:
         cs.append({"id": f"decl-imp-{eng}", "engine": eng,
@@ -395,8 +468,14 @@ def spec_expected(c):
     lines = c["lines"]
     out, need = [], {}
     head, off = None, 0
-    for pos, l in enumerate(lines):
+    pos, mod = -1, 0
+    for l in lines:
         k = l[0]
+        if k == "module":          # a second module starts: positions and sections are per module
+            out.append("module")
+            pos, mod, head = -1, 1, None
+            continue
+        pos += 1
         if k not in DATAK:
             out.append(f"other {pos}")
             head = None
@@ -417,6 +496,10 @@ def spec_expected(c):
         elif k == "lref":
             size = 8
             payload = "lref=ok"
+        elif lines[int(l[2])][0] == "afunc":      # expr of an address function: target address + disp
+            size = 8
+            d = int(lines[int(l[2])][3])
+            payload = f"delta={((d + (1 << 63)) % (1 << 64)) - (1 << 63)}"
         else:
             ef = lines[int(l[2])]
             size = TSIZE[ef[2]]
@@ -425,7 +508,7 @@ def spec_expected(c):
             payload = "bytes=" + "".join("%02x" % ((v >> (8 * j)) & 255) for j in range(shown)) + "??" * (size - shown)
         out.append(f"item {pos} {k} sec={head} off={off} size={size} {payload}")
         off += size
-        need[head] = off
+        need[(mod, head)] = off
     return out, need
 
 
@@ -435,10 +518,13 @@ def spec_check(c, impl):
     bad = []
     items = [l for l in impl if not l.startswith("sec ")]
     secs = {}
+    mod = 0
     for l in impl:
+        if l == "module":
+            mod = 1
         if l.startswith("sec "):
             t = l.split()
-            secs[int(t[1])] = int(t[2].split("=")[1])
+            secs[(mod, int(t[1]))] = int(t[2].split("=")[1])
     if impl and impl[0].startswith("error"):
         return [f"rejected: {impl[0]}"]
     for i, e in enumerate(exp):
@@ -471,22 +557,26 @@ def lref_defect_pattern(c, model):
 # ------------------------------------------------------------------------------------------ shrinking
 def remove_line(c, j):
     ls = c["lines"]
+    if ls[j][0] == "module":
+        return None
     for l in ls:
-        if l[0] in ("ref", "expr", "lref") and int(l[2]) == j:
+        if l[0] in ("ref", "expr", "lref", "afunc") and int(l[2]) == j:
             return None
-    if ls[j][0] == "forward":
-        pass
     new = []
     for i, l in enumerate(ls):
         if i == j:
             continue
         l = list(l)
-        if l[0] in ("ref", "expr", "lref") and int(l[2]) > j:
+        if l[0] in ("ref", "expr", "lref", "afunc") and int(l[2]) > j:
             l[2] = int(l[2]) - 1
         new.append(l)
     # keep forwards defined and exports defined
     for l in new:
         if l[0] in ("forward", "export") and find_def(new, l[1]) is None:
+            return None
+        # an import of a name the case defines (cross-module) needs the export to stay
+        if l[0] == "import" and find_def(new, l[1]) is not None \
+                and not any(x[0] == "export" and x[1] == l[1] for x in new):
             return None
     return {"id": c["id"], "engine": c["engine"], "lines": new}
 
@@ -609,7 +699,18 @@ def main():
     n_random = 60000 if thorough else 4000
     for k in range(n_random):
         length = 1 + rng.below(12) if rng.chance(2, 3) else 10 + rng.below(40)
-        cases.append(gen_random(f"r-{k}", ENGINES[rng.below(len(ENGINES))], length, want_lref=rng.chance(1, 3)))
+        c = gen_random(f"r-{k}", ENGINES[rng.below(len(ENGINES))], length, want_lref=rng.chance(1, 3))
+        if rng.chance(1, 4):
+            bb = Builder(c["id"], c["engine"])
+            bb.c, bb.n = c, 100000
+            ls = c["lines"]
+            # export the named data items that are not exported yet (at the end of module A)
+            done = {l[1] for l in ls if l[0] == "export"}
+            for nm in [l[1] for l in ls if l[0] in DATAK and l[1] != "-" and l[1] not in done]:
+                if rng.chance(2, 3):
+                    bb.add("export", nm)
+            add_module_b(bb, rng.choice(["a-first", "b-first"]))
+        cases.append(c)
     ck.log(f"{len(cases)} cases ({len(corpus)} corpus, {len(wl)} exhaustive words, {n_random} random)")
 
     t = time.time()
@@ -665,7 +766,8 @@ def main():
     feat = {"zero_size_item": 0, "named_after_data": 0, "anon_after_other": 0, "ref_to_later(forward)": 0, "ref_via_forward_after_def": 0, "ref_via_export_before_def": 0,
             "ref_via_export_after_def": 0,
             "ref_to_import": 0, "ref_to_func": 0, "ref_negative_disp": 0, "expr": 0, "lref_one_label": 0,
-            "lref_two_labels": 0, "multi_item_section": 0, "section_size_padded": 0, "lref_defect_pattern": 0}
+            "lref_two_labels": 0, "multi_item_section": 0, "two_module_cases": 0, "module_b_loaded_first": 0,
+            "ref_to_export_of_other_module": 0, "ref_to_export_of_other_module_multi_item_section": 0, "section_size_padded": 0, "lref_defect_pattern": 0}
     for c in cases:
         ls = c["lines"]
         engines[c["engine"]] = engines.get(c["engine"], 0) + 1
@@ -706,15 +808,26 @@ def main():
                     else:
                         feat["ref_via_export_before_def" if before else "ref_via_export_after_def"] += 1
                 elif tk == "import":
-                    feat["ref_to_import"] += 1
+                    d = find_def(ls, ls[int(l[2])][1])
+                    if d is None:
+                        feat["ref_to_import"] += 1
+                    else:
+                        feat["ref_to_export_of_other_module"] += 1
+                        # does the exported section have followers (head != last item)?
+                        if d + 1 < len(ls) and ls[d + 1][0] in DATAK and ls[d + 1][1] == "-":
+                            feat["ref_to_export_of_other_module_multi_item_section"] += 1
                 elif tk in ("func", "efunc", "lfunc"):
                     feat["ref_to_func"] += 1
                 if int(l[3]) < 0:
                     feat["ref_negative_disp"] += 1
             if l[0] == "expr":
                 feat["expr"] += 1
-                et = ls[int(l[2])][2]
+                et = "addr-of-import" if ls[int(l[2])][0] == "afunc" else ls[int(l[2])][2]
                 types["expr:" + et] = types.get("expr:" + et, 0) + 1
+            if l[0] == "module":
+                feat["two_module_cases"] += 1
+                if l[1] == "b-first":
+                    feat["module_b_loaded_first"] += 1
             if l[0] == "lref":
                 feat["lref_two_labels" if l[4] != "-" else "lref_one_label"] += 1
             prev = l[0]
@@ -724,8 +837,10 @@ def main():
     ck.cov["rule"] = ("cases = corpus + directed (every element type, zero sizes) + every word of length <=3 (quick) / "
                       "<=4 (thorough) over an 18-symbol item alphabet (named/anonymous data of 3 sizes, bss incl. "
                       "length 0, ref to item/import, ref through export/forward declared before the definition, expr, "
-                      "lref, func, proto) + random item "
-                      "sequences of length 1..50; each run under asan(+asserts) and plain -DNDEBUG harness, engine "
+                      "lref, func, proto) + directed two-module grid (exported data/bss/ref/expr section head with 0-3 "
+                      "anonymous followers, export before/after the definition, importing module loaded before/after, refs "
+                      "and address expr functions to the import) + random item "
+                      "sequences of length 1..50 (a quarter of them with a second importing module); each run under asan(+asserts) and plain -DNDEBUG harness, engine "
                       "interp/gen/lazy by rotation. non-trivial = the module has a section with >= 2 items; "
                       "distinct = different line lists")
     ck.cov["distribution"] = {"line_kinds": kinds, "element_types": types, "engines": engines,
